@@ -248,3 +248,85 @@ for _n in (3, 4, 5):
                    "decreasing_in_a), instantiated for the argument triples of the real calls made by set_decay and get_weight",
                    "the intermediate masses handed to get_weight have open channels (M_{i+1} >= M_i + m): the contract of generate_mass / get_mass_range (bounded group iface.C10/mass_range)",
                    "importance factors of custom mass generators are not part of this clause (importances=False)"])(_mk_weight_le_one(_n))
+
+
+# ---------------------------------------------------------------------------------------------
+# cal_max_weight: the function the optimiser maximises IS the weight used for unweighting afterwards (modular runtime contract, optimiser replaced by a recorder)
+# ---------------------------------------------------------------------------------------------
+@group(["C10"], "phasespace.cal_max_weight/objective_is_the_weight", ["phasespace:PhaseSpaceGenerator.cal_max_weight", "phasespace:PhaseSpaceGenerator.get_weight",
+                                                                      "phasespace:PhaseSpaceGenerator.mass_importances"], env="tf", kind="B",
+       bound="n = 3, 4, 5 bodies; plain generator and generators with a user mass generator (UniformGenerator on a sub-range) on every single inner slot and on all slots; "
+             "64 seeded points of the mass box per case; scipy.optimize.minimize replaced by a recorder (the optimiser itself is A-LIB)",
+       assumes=["scipy.optimize.minimize is an abstract optimiser: it may evaluate its objective anywhere in the box it is given and returns an object with .fun and .x"])
+def cal_max_weight_objective(ctx):
+    """contract of cal_max_weight(): (1) the objective handed to the optimiser equals -get_weight(x) of THIS generator in the state it is used in afterwards (same mass
+    generators / importance factors), at every point of the box; (2) the box is the generator's mass range; (3) afterwards m_wtMax == old * (-fun) * 1.001, so that the weight at
+    the optimiser's optimum is 1/1.001 <= 1; (4) the user's mass generators are installed again"""
+    import numpy as np
+    import scipy.optimize
+
+    ps = ctx.mod("phasespace")
+    rng = np.random.RandomState(ctx.seed + 11)
+    bad = {}
+    n_eval = 0
+    for n, masses, m0 in ((3, [0.3, 0.2, 0.5], 2.0), (4, [0.14, 0.5, 0.3, 0.2], 3.0), (5, [0.1, 0.4, 0.2, 0.3, 0.15], 3.5)):
+        base = ps.PhaseSpaceGenerator(m0, masses)
+        slots = len(base.mass_range)
+        configs = [()] + [(k,) for k in range(slots)] + ([tuple(range(slots))] if slots > 1 else [])
+        for cfg in configs:
+            gen = ps.PhaseSpaceGenerator(m0, masses)
+            for k in cfg:
+                lo, hi = gen.mass_range[k]
+                gen.mass_generator[k] = ps.UniformGenerator(lo + 0.15 * (hi - lo), hi - 0.1 * (hi - lo))
+            user_gens = list(gen.mass_generator)
+            box = [tuple(float(x) for x in r) for r in gen.mass_range]
+            # points of the box with open channels (ascending masses with room for the daughters): take them from the generator's own proposal
+            pts = np.stack([np.asarray(m) for m in gen.generate_mass(64)], axis=-1)
+            before = np.array([float(np.asarray(gen.get_weight([np.array([v]) for v in x]))[0]) for x in pts])
+            wt_old = float(gen.m_wtMax)
+            rec = {}
+
+            def fake_minimize(f, x0, bounds=None, **kw):
+                rec["bounds"] = [tuple(float(v) for v in b) for b in bounds] if bounds is not None else None
+                rec["f"] = np.array([f(np.array(x)) for x in pts])
+                k = int(np.argmin(rec["f"]))
+
+                class R:
+                    fun = float(rec["f"][k])
+                    x = pts[k]
+                    success = True
+
+                return R()
+
+            real = scipy.optimize.minimize
+            scipy.optimize.minimize = fake_minimize
+            try:
+                gen.cal_max_weight()
+            finally:
+                scipy.optimize.minimize = real
+            n_eval += len(pts)
+            desc = {"n": n, "m0": m0, "masses": masses, "user_generator_on_slots": list(cfg)}
+            if "f" not in rec:
+                bad.setdefault("objective", dict(desc, problem="the optimiser was not called"))
+                continue
+            err = np.abs(rec["f"] + before) / np.maximum(np.abs(before), 1e-300)
+            k = int(np.argmax(err))
+            if not np.all(err < 1e-9):   # same floating-point expression evaluated twice: agreement to rounding
+                bad.setdefault("objective", dict(desc, point=pts[k].tolist(), objective_seen_by_optimiser=float(rec["f"][k]), minus_weight_used_afterwards=float(-before[k])))
+            if rec["bounds"] is None or np.max(np.abs(np.array(rec["bounds"]) - np.array(box))) > 1e-12:
+                bad.setdefault("box", dict(desc, bounds=rec["bounds"], mass_range=box))
+            want = wt_old * (-float(np.min(rec["f"]))) * 1.001
+            if abs(float(gen.m_wtMax) - want) > 1e-12 * abs(want):
+                bad.setdefault("bound_update", dict(desc, m_wtMax=float(gen.m_wtMax), expected=want))
+            after = np.array([float(np.asarray(gen.get_weight([np.array([v]) for v in x]))[0]) for x in pts])
+            if not np.all(after <= 1.0 / 1.001 * (1 + 1e-9)):
+                bad.setdefault("weight_le_1_at_probed_points", dict(desc, max_weight=float(after.max())))
+            if any(a is not b for a, b in zip(gen.mass_generator, user_gens)):
+                bad.setdefault("generators_restored", dict(desc, problem="mass generators differ from the ones installed before the call"))
+            ctx.count(key=(n, cfg), sample=desc)
+    for name, clause in (("objective", "the objective handed to the optimiser == -get_weight(x) with the generator's OWN mass generators / importance factors, at every probed point of the box"),
+                         ("box", "the optimiser's box is the generator's mass range"),
+                         ("bound_update", "m_wtMax_new == m_wtMax_old * (-fun) * 1.001"),
+                         ("weight_le_1_at_probed_points", "after the call the weight is <= 1/1.001 at every point the optimiser probed (its optimum included)"),
+                         ("generators_restored", "the user's mass generators are installed again after the call")):
+        ctx.check(name, name not in bad, clause=clause + " (%d probed points)" % n_eval, detail=str(bad.get(name)), witness=bad.get(name))
